@@ -180,10 +180,11 @@ func runRuntime(c *rtCheck) {
 	// dedicated batch of streaming designs: websocket endpoints next to plain ones, driven over a real socket
 	if ns := c.StreamSpecs[ti]; ns > 0 {
 		run.Assume("streaming endpoints are driven over a real loopback socket (httptest.Server + gorilla websocket) with the deterministic protocols of rt/stream.go; an exchange whose watchdog fires is inconclusive",
-			"streamed results of result types with views are not generated for the runtime batch (their projection is C08's); streaming payloads stay clear of the listed C01 findings (alias / union in a streaming payload, string lengths in non-user message types, two routes)")
+			"streamed results of result types with views are judged against the reference projection of oracle/c08.go (the view the service sets, or the fixed one); result types in the trigger classes of the listed C08 findings (required attribute outside the view, recursive result type) are inconclusive",
+			"streaming payloads of the runtime batch stay clear of the listed C01 findings (alias / union in a streaming payload, string lengths in non-user message types, two routes)")
 		var specs []*spec.Spec
 		for i := 0; i < ns; i++ {
-			s := gen.Generate(run.Rand(7, uint64(i)), fmt.Sprintf("s%d", i), gen.Opts{Profile: "stream", Runtime: true, Streams: true, Thorough: run.Thorough()})
+			s := gen.Generate(run.Rand(7, uint64(i)), fmt.Sprintf("s%d", i), gen.Opts{Profile: "stream", Runtime: true, Streams: true, StreamViews: true, Thorough: run.Thorough()})
 			s.AddFeature("profile-stream")
 			specs = append(specs, s)
 		}
@@ -210,6 +211,12 @@ func runRuntime(c *rtCheck) {
 		runDesigns(run, c, dir, specs, mk, false)
 		if os.Getenv("VERIF_KEEP") == "" {
 			os.RemoveAll(dir)
+		}
+		// a streaming batch that mostly hung decided nothing: a broken run, not a pass
+		if total, hung := run.Counter("stream_exchanges"), run.Counter("stream_watchdog_fired"); hung >= 8 && hung*4 > total {
+			run.Infra("streaming: %d of %d exchanges hit the watchdog (both ends wait for each other: the stream protocol is broken or the machine is stalled)", hung, total)
+		} else if total == 0 {
+			run.Infra("streaming: no streaming exchange was driven")
 		}
 	}
 	run.Floor(c.Floor[ti])
@@ -332,6 +339,10 @@ func runDesigns(run *vc.Run, c *rtCheck, dir string, specs []*spec.Spec, mk func
 			}
 			if v.Inconclusive != "" {
 				run.Inconclusive(v.Inconclusive)
+				if os.Getenv("VERIF_DEBUG") != "" && ex.Stream != nil && ex.Stream.Watchdog != "" {
+					bb, _ := json.Marshal(ex)
+					fmt.Fprintf(os.Stderr, "WATCHDOG %s %s\n", d.ID, tailS(string(bb), 6000))
+				}
 				continue
 			}
 			conclusive++
@@ -420,6 +431,9 @@ func countTaps(run *vc.Run, ex *rt.Exchange) {
 		run.Count("tap_stream_wire_frames", len(r.WireC2S)+len(r.WireS2C))
 		if r.Watchdog != "" {
 			run.Count("stream_watchdog_fired", 1)
+		}
+		if r.ConnLeftOpen {
+			run.Count("stream_conn_left_open_by_handler", 1)
 		}
 		if ex.Case.Stream != nil && ex.Case.Stream.RawClient {
 			run.Count("stream_exchanges_raw_client", 1)
